@@ -19,6 +19,9 @@ def run(tier):
     b = _build()
     c.builds_done()
     plan = [("reader L<=2, full alphabet", ["--mode", "reader", "--lines", 2]), ("validators, <=3 edges", ["--mode", "validators", "--max-edges", 3]),
+            ("reader into other graph types (edge_weight behind an edge_index property; list-based out-edges with vertex and edge properties): L<=2, 4 weight spellings, <=1 comment line",
+             ["--mode", "reader", "--lines", 2, "--nweights", 4, "--max-comments", 1, "--graph-type", 1]),
+            ("reader into other graph types, second type", ["--mode", "reader", "--lines", 2, "--nweights", 4, "--max-comments", 1, "--graph-type", 2]),
             ("reader, one line stretched to every length 1..1022 (+ newline) / 1..1023 (final line without newline): comment 'c'/'#' at each of 4 positions, zero-padded decimal weight on each of 3 edge lines", ["--mode", "longlines"])]
     if tier == "thorough":
         plan += [("reader L<=3, u,v in 1..3, 3 weight spellings, <=1 comment line", ["--mode", "reader", "--lines", 3, "--maxv", 3, "--nweights", 3, "--max-comments", 1]),
